@@ -7,6 +7,10 @@ V = os.path.dirname(os.path.dirname(os.path.abspath(__file__)))
 TRUST = "Trusted: TLC/SANY and the CommunityModules Json reader; the Go projection functions of the harness; "
 
 CLAIMED = {
+ "C14": dict(
+   tech="TLA+ spec ProfileDB.tla (ghost backend + the six index maps + explicitly scheduled clean-up steps + cache file/restart) model-checked by TLC; TLC-generated and seeded histories replayed on the real profiledb.Default with intercepted clean-up goroutines and a virtual clock; all look-ups probed after every step and validated by TLC (TraceProfileDB.tla); cache-file replacement validated against AtomicFile.tla from strace logs with a SIGKILL injected at every system call",
+   text="TLC explores every interleaving of backend mutations (attach/detach/move, linked/dedicated IP and human-id changes and swaps, profile deletion), full and partial syncs, restarts from the cache file, look-ups and the background clean-ups they spawn (each an independently scheduled step) and checks in every state that all four look-ups answer with the owner in the last synchronised data; two sanity configs show the pinned tree's defects are expressible. The same histories are forced on the real database (clean-ups queued by an overlay rewrite and run when the schedule says), every probe of every key after every step is checked by TLC against the oracle, a restart must restore every profile/device field (structural deep comparison over randomised settings), and every system call of the cache-file replacement is a kill point after which the file must load as a complete version.",
+   note=TRUST + "the scripted Storage delivers whole dirty profiles like backendpb; regex overlay rewrites of profiledb.go (time.Now -> VerifNow, `go db.remove*` -> VerifGo) fail closed (exit 2) if the source shape changes; strace syscall injection; auto-device creation not modelled.", ref="6 C14"),
  "C16": dict(
    tech="TLA+ spec BillStat.tla model-checked by TLC; TLC-generated and seeded action sequences replayed on the real RuntimeRecorder through a gating Uploader; recorded traces validated by TLC (TraceBillStat.tla)",
    text="TLC enumerates every interleaving of Record / reset / upload-ok / upload-fail for 2-3 devices and up to two overlapping refreshes and checks conservation, no-double-count and metadata-latest in every state; the same actions are forced on the real recorder (the Uploader is the gate) and every observed state is checked by TLC against the spec, so a code change that breaks conservation on some interleaving is rejected at the step where it diverges.",
